@@ -125,3 +125,15 @@ Lemma raw_switch_exception_witness :
   let s0 := mkU E_cm L_A None None 1 true in
   let '(s', r, _) := exec (PBuild RawSwitch PRaise) s0 in (cur_e s', r) = (E_int, true).
 Proof. vm_compute. reflexivity. Qed.
+
+(* ---------- length units: plain scaling, no reciprocal member ---------- *)
+Section Lin.
+  Variable facl : lunit -> Q.
+  Hypothesis facl_nz : forall u, ~ facl u == 0.
+  Lemma conv_l_exact u v x : convert_l facl u v x == x * facl u / facl v.
+  Proof. unfold convert_l, to_cur_l, to_int_l. reflexivity. Qed.
+  Lemma roundtrip_l u x : convert_l facl u u x == x.
+  Proof. unfold convert_l, to_cur_l, to_int_l. field. apply facl_nz. Qed.
+  Lemma conv_l_compose u v w x : convert_l facl v w (convert_l facl u v x) == convert_l facl u w x.
+  Proof. unfold convert_l, to_cur_l, to_int_l. field. split; apply facl_nz. Qed.
+End Lin.
